@@ -136,18 +136,18 @@ Inductive kind :=
 | KDir
 | KLink (abs : bool) (t : list seg).   (* tar Linkname: absolute?, segments *)
 
-Record entry := { e_name : list seg; e_kind : kind; e_layer : nat; e_del : option nat }.
-Record image := { i_entries : list entry; i_layers : nat; i_marker : seg }.
+Record entry := mkE { e_name : list seg; e_kind : kind; e_layer : nat; e_del : option nat }.
+Record image := mkI { i_entries : list entry; i_layers : nat; i_marker : seg }.
 
 Definition pnode := node (list seg).
 
 Definition plain (p : list seg) (isdir wh : bool) : pnode :=
   {| n_path := p; n_symlink := false; n_target := []; n_whiteout := wh; n_isdir := isdir |}.
 
-(* image.go handleSymlink.  raw_abs = true is the code as it is: an absolute Linkname is stored
-   as written; a relative one becomes path.Clean(path.Join(path.Dir(virtualPath), target)). *)
-Definition link_target (raw_abs : bool) (name : list seg) (abs : bool) (t : list seg) : list seg :=
-  if abs then (if raw_abs then t else clean_rooted t) else clean_rooted (dir name ++ t).
+(* image.go handleSymlink: an absolute Linkname is stored as written; a relative one becomes
+   path.Clean(path.Join(path.Dir(virtualPath), target)). *)
+Definition link_target (name : list seg) (abs : bool) (t : list seg) : list seg :=
+  if abs then t else clean_rooted (dir name ++ t).
 
 Definition live_node (img : image) (e : entry) : option pnode :=
   match e_kind e with
@@ -155,18 +155,16 @@ Definition live_node (img : image) (e : entry) : option pnode :=
   | KDir => Some (plain (e_name e) true false)
   | KLink abs t =>
       if target_outside_root (i_marker img) (e_name e) abs t then None   (* ErrSymlinkPointsOutsideRoot: entry skipped *)
-      else Some {| n_path := e_name e; n_symlink := true; n_target := link_target true (e_name e) abs t;
+      else Some {| n_path := e_name e; n_symlink := true; n_target := link_target (e_name e) abs t;
                    n_whiteout := false; n_isdir := false |}
   end.
 
 Definition deleted_by (e : entry) (i : nat) : bool :=
   match e_del e with Some j => Nat.leb j i | None => false end.
 
-(* the node stored under the entry's own path in chain layer i *)
+(* the node stored under the entry's own path in chain layer i, before the final pruning *)
 Definition entry_node (img : image) (i : nat) (e : entry) : option pnode :=
-  if deleted_by e i then
-    (* whiteout node; removeUnnecessaryFileNodes prunes whiteouts from the final chain layer *)
-    if Nat.eqb (S i) (i_layers img) then None else Some (plain (e_name e) false true)
+  if deleted_by e i then Some (plain (e_name e) false true)     (* whiteout node *)
   else if Nat.leb (e_layer e) i then live_node img e
   else None.
 
@@ -189,33 +187,89 @@ Definition implicit_dir (img : image) (i : nat) (p : list seg) : bool :=
   | _ => existsb (fun e => proper_prefix p (e_name e) && contributes img i e) (i_entries img)
   end.
 
-Definition view_get (img : image) (i : nat) (p : list seg) : option pnode :=
+Definition raw_get (img : image) (i : nat) (p : list seg) : option pnode :=
   match find (fun e => path_eqb (e_name e) p) (i_entries img) with
   | Some e => entry_node img i e
   | None => if implicit_dir img i p then Some (plain p true false) else None
   end.
 
-(* GetChildren + the whiteout filter of ReadDir: names of the visible nodes directly below p *)
 Fixpoint dedup (l : list (list seg)) : list (list seg) :=
   match l with
   | [] => []
   | x :: r => if existsb (path_eqb x) r then dedup r else x :: dedup r
   end.
 
+(* every path that can hold a node: the root, the entry names and their parents *)
 Definition candidate_paths (img : image) : list (list seg) :=
-  dedup (flat_map (fun e => [e_name e; dir (e_name e)]) (i_entries img)).
+  dedup ([] :: flat_map (fun e => [e_name e; dir (e_name e)]) (i_entries img)).
 
-Definition view_children (img : image) (i : nat) (p : list seg) : list seg :=
-  flat_map (fun q =>
-    match q with
-    | [] => []
-    | _ => if path_eqb (dir q) p then
-             match view_get img i q with
-             | Some n => if n_whiteout n then [] else [base q]
-             | None => []
-             end
-           else []
-    end) (candidate_paths img).
+Definition table := list (list seg * pnode).
+Fixpoint tlookup (t : table) (p : list seg) : option pnode :=
+  match t with
+  | [] => None
+  | (q, n) :: r => if path_eqb q p then Some n else tlookup r p
+  end.
+
+Definition raw_table (img : image) (i : nat) : table :=
+  flat_map (fun p => match raw_get img i p with Some n => [(p, n)] | None => [] end) (candidate_paths img).
+
+(* removeUnnecessaryFileNodes on the final chain layer with the default requirer (everything that
+   can be stat-ed is required): whiteout nodes are removed unless a required symlink reaches them
+   within symlinkDepth hops (`for range symlinkDepth { linkedNode = Get(linkedNode.targetPath) ... }`) *)
+Fixpoint marks (t : table) (k : nat) (s : pnode) (p : list seg) : bool :=
+  match k with
+  | 0 => false
+  | S k' =>
+      match tlookup t (n_target s) with
+      | None => false
+      | Some nx => path_eqb (n_path nx) p || (n_symlink nx && marks t k' nx p)
+      end
+  end.
+
+Definition marked_by (t : table) (d : nat) (starts : table) (p : list seg) : bool :=
+  existsb (fun qs => n_symlink (snd qs) && marks t d (snd qs) p) starts.
+
+(* The walk over the trie visits nodes in Go map order and returns early on nodes that are already
+   marked, so which whiteouts survive depends on that order (e.g. /s1 -> /s2 -> /w, depth 1).  The
+   set of surviving whiteout paths is therefore an observed input [kept] of the final view; the
+   model only bounds it: everything marked from a symlink that nobody points to is kept, and nothing
+   is kept that no symlink marks. *)
+Definition in_paths (l : list (list seg)) (p : list seg) : bool := existsb (path_eqb p) l.
+
+Definition is_final (img : image) (i : nat) : bool := Nat.eqb (S i) (i_layers img).
+
+Definition prune (final : bool) (kept : list (list seg)) (t : table) : table :=
+  if final then filter (fun pn => negb (n_whiteout (snd pn)) || in_paths kept (fst pn)) t else t.
+
+Definition view_table (img : image) (kept : list (list seg)) (i : nat) : table :=
+  prune (is_final img i) kept (raw_table img i).
+
+Definition whiteout_paths (t : table) : list (list seg) :=
+  flat_map (fun pn => if n_whiteout (snd pn) then [fst pn] else []) t.
+
+(* t = unpruned table of the final chain layer *)
+Definition kept_upper (t : table) (d : nat) : list (list seg) :=
+  filter (marked_by t d t) (whiteout_paths t).
+
+Definition kept_lower (t : table) (d : nat) : list (list seg) :=
+  let pointed p := existsb (fun qs => n_symlink (snd qs) && path_eqb (n_target (snd qs)) p) t in
+  filter (marked_by t d (filter (fun qs => negb (pointed (fst qs))) t)) (whiteout_paths t).
+
+Definition kept_ok (t : table) (d : nat) (kept : list (list seg)) : bool :=
+  forallb (in_paths kept) (kept_lower t d) && forallb (in_paths (kept_upper t d)) kept.
+
+Definition raw_tables (img : image) : list table := map (raw_table img) (seq 0 (i_layers img)).
+
+(* chain layer i of the image; [kept] as above *)
+Definition view_get (img : image) (kept : list (list seg)) (i : nat) (p : list seg) : option pnode :=
+  tlookup (view_table img kept i) p.
+
+(* GetChildren + the whiteout filter of ReadDir: names of the visible nodes directly below p *)
+Definition children_of (t : table) (p : list seg) : list seg :=
+  flat_map (fun pn => match fst pn with
+                      | [] => []
+                      | q => if path_eqb (dir q) p && negb (n_whiteout (snd pn)) then [base q] else []
+                      end) t.
 
 (* ------------------------------------------------------------------ observations *)
 Inductive eclass := CNotExist | CCycle | CDepth | COther.
@@ -254,28 +308,34 @@ Definition obs_of (r : result (list seg)) : outcome :=
   | e => OErr (err_of e)
   end.
 
-Definition m_stat (img : image) (i : nat) (p : list seg) (d : nat) : outcome :=
-  obs_of (stat path_eqb (view_get img i) p d).
-Definition m_open (img : image) (i : nat) (p : list seg) (d : nat) : outcome :=
-  obs_of (open path_eqb (view_get img i) p d).
-Definition m_readdir (img : image) (i : nat) (p : list seg) (d : nat) : rdoutcome :=
-  match open path_eqb (view_get img i) p d with
-  | ROk t => RDOk (view_children img i (n_path t))
+Definition t_stat (t : table) (p : list seg) (d : nat) : outcome := obs_of (stat path_eqb (tlookup t) p d).
+Definition t_open (t : table) (p : list seg) (d : nat) : outcome := obs_of (open path_eqb (tlookup t) p d).
+(* FS.ReadDir: resolve, then the children of the resolved node's path (no whiteout test on the node itself) *)
+Definition t_readdir (t : table) (p : list seg) (d : nat) : rdoutcome :=
+  match open path_eqb (tlookup t) p d with
+  | ROk r => RDOk (children_of t (n_path r))
   | e => RDErr (err_of e)
   end.
 
+Definition m_stat (img : image) (kept : list (list seg)) (i : nat) (p : list seg) (d : nat) : outcome :=
+  t_stat (view_table img kept i) p d.
+Definition m_open (img : image) (kept : list (list seg)) (i : nat) (p : list seg) (d : nat) : outcome :=
+  t_open (view_table img kept i) p d.
+Definition m_readdir (img : image) (kept : list (list seg)) (i : nat) (p : list seg) (d : nat) : rdoutcome :=
+  t_readdir (view_table img kept i) p d.
+
 (* ------------------------------------------------------------------ executable oracle *)
-(* The oracle does not use resolve, link_target's raw branch or target_outside_root: it walks the
-   chain of *intended* targets naively and classifies by hop count.  A link whose intended target
-   leaves the root lexically must never be followed. *)
+(* The oracle uses neither resolve nor target_outside_root nor the stored targets: it walks the
+   chain of *intended* targets (lexically cleaned, also for absolute links) naively and classifies by
+   hop count.  A link whose intended target leaves the root lexically must never be followed.
+   Whether a deleted entry is still a (whiteout) node or already pruned does not matter to it. *)
 Inductive snode :=
 | SPlain (p : list seg) (wh : bool)
 | SLink (t : list seg)
 | SEscape.
 
-Definition s_entry (img : image) (i : nat) (e : entry) : option snode :=
-  if deleted_by e i then
-    if Nat.eqb (S i) (i_layers img) then None else Some (SPlain (e_name e) true)
+Definition s_entry (i : nat) (e : entry) : option snode :=
+  if deleted_by e i then Some (SPlain (e_name e) true)
   else if Nat.leb (e_layer e) i then
     match e_kind e with
     | KLink abs t =>
@@ -293,7 +353,7 @@ Definition s_contributes (i : nat) (e : entry) : bool :=
 
 Definition s_get (img : image) (i : nat) (p : list seg) : option snode :=
   match find (fun e => path_eqb (e_name e) p) (i_entries img) with
-  | Some e => s_entry img i e
+  | Some e => s_entry i e
   | None =>
       match p with
       | [] => Some (SPlain [] false)
@@ -302,68 +362,82 @@ Definition s_get (img : image) (i : nat) (p : list seg) : option snode :=
       end
   end.
 
+Definition stable := list (list seg * snode).
+Fixpoint slookup (t : stable) (p : list seg) : option snode :=
+  match t with
+  | [] => None
+  | (q, n) :: r => if path_eqb q p then Some n else slookup r p
+  end.
+Definition s_table (img : image) (i : nat) : stable :=
+  flat_map (fun p => match s_get img i p with Some n => [(p, n)] | None => [] end) (candidate_paths img).
+
 Inductive expect :=
 | XTarget (p : list seg) (wh : bool)   (* first non-symlink, within the hop budget *)
 | XNotFound                            (* missing entry reached within the hop budget *)
 | XError                               (* cycle or depth error *)
 | XNotOk                               (* chain runs into a link that must not be followed: any error *)
-| XBoundary.                           (* missing entry exactly at hop max+1: outside the domain D *)
+| XBoundary.                           (* missing/deleted entry exactly at hop max+1: see resolve_strict_refuted *)
 
 (* hops = number of hops made so far; budget = max depth *)
-Fixpoint s_walk (img : image) (i : nat) (fuel : nat) (cur : snode) (hops budget : nat) : expect :=
+Fixpoint s_walk (t : stable) (fuel : nat) (cur : snode) (hops budget : nat) : expect :=
   match cur with
-  | SPlain p wh => if Nat.leb hops budget then XTarget p wh else XError
+  | SPlain p wh => if Nat.leb hops budget then XTarget p wh
+                   else if wh && Nat.eqb hops (S budget) then XBoundary   (* deleted entry: pruned or not *)
+                   else XError
   | SEscape => XNotOk
-  | SLink t =>
+  | SLink tg =>
       match fuel with
       | 0 => XError
       | S f =>
-          match s_get img i t with
+          match slookup t tg with
           | None => if Nat.leb (S hops) budget then XNotFound
-                    else if Nat.eqb (S hops) (S budget) then XBoundary else XError
-          | Some nx => s_walk img i f nx (S hops) budget
+                    else if Nat.eqb hops budget then XBoundary else XError
+          | Some nx => s_walk t f nx (S hops) budget
           end
       end
   end.
 
-Definition s_expect (img : image) (i : nat) (p : list seg) (d : nat) : expect :=
-  match s_get img i p with
+Definition s_expect (t : stable) (p : list seg) (d : nat) : expect :=
+  match slookup t p with
   | None => XNotFound
-  | Some n => s_walk img i (d + 2) n 0 d
+  | Some n => s_walk t (d + 2) n 0 d
   end.
 
 Definition is_err (o : outcome) : bool := match o with OErr _ => true | _ => false end.
 Definition is_loop_err (o : outcome) : bool :=
   match o with OErr CCycle | OErr CDepth => true | _ => false end.
 
-(* the property sentence, evaluated on an observed Stat outcome *)
-Definition stat_meets (x : expect) (o : outcome) : bool :=
+(* the property sentence, evaluated on an observed Stat outcome.  strict = the sentence as written
+   ("not found ... before the hop budget is exhausted, and a cycle or depth error otherwise");
+   non-strict leaves the boundary case (missing entry exactly at hop max+1) open. *)
+Definition stat_meets (strict : bool) (x : expect) (o : outcome) : bool :=
   match x with
   | XTarget p wh => if wh then outcome_eqb o (OErr CNotExist) else outcome_eqb o (OOk (base p) false)
   | XNotFound => outcome_eqb o (OErr CNotExist)
   | XError => is_loop_err o
   | XNotOk => is_err o
-  | XBoundary => true
+  | XBoundary => if strict then is_loop_err o else is_err o
   end.
 
 (* ... on an observed Open outcome (the handle of a deleted entry answers not-exist on Stat) *)
-Definition open_meets (x : expect) (o : outcome) : bool :=
+Definition open_meets (strict : bool) (x : expect) (o : outcome) : bool :=
   match x with
   | XTarget p wh => outcome_eqb o (OOk (base p) wh) || (wh && outcome_eqb o (OErr CNotExist))
   | XNotFound => outcome_eqb o (OErr CNotExist)
   | XError => is_loop_err o
   | XNotOk => is_err o
-  | XBoundary => true
+  | XBoundary => if strict then is_loop_err o else is_err o
   end.
 
-Definition rd_meets (x : expect) (o : rdoutcome) : bool :=
+Definition rd_meets (strict : bool) (x : expect) (o : rdoutcome) : bool :=
   match x, o with
   | XTarget _ false, RDOk _ => true
   | XTarget _ true, _ => true
   | XNotFound, RDErr CNotExist => true
   | XError, RDErr CCycle | XError, RDErr CDepth => true
   | XNotOk, RDErr _ => true
-  | XBoundary, _ => true
+  | XBoundary, RDErr CCycle | XBoundary, RDErr CDepth => true
+  | XBoundary, RDErr CNotExist => negb strict
   | _, _ => false
   end.
 
@@ -385,7 +459,8 @@ Definition wf_entry (img : image) (e : entry) : bool :=
   Nat.ltb (e_layer e) (i_layers img) &&
   match e_del e with Some j => Nat.ltb (e_layer e) j && Nat.ltb j (i_layers img) | None => true end &&
   match e_kind e with
-  | KLink abs t => freshb (i_marker img) (lexical_input (e_name e) abs t) && negb (match t with [] => negb abs | _ => false end)
+  | KLink abs t => freshb (i_marker img) (lexical_input (e_name e) abs t) &&
+                   negb (match t with [] => negb abs | _ => false end)     (* empty Linkname aborts the load *)
   | _ => true
   end.
 
@@ -396,27 +471,53 @@ Definition wf_image (img : image) : bool :=
                        negb (proper_prefix (e_name b) (e_name a))) (i_entries img).
 
 (* ------------------------------------------------------------------ cases *)
-Record qobs := { q_view : nat; q_name : list seg; q_stat : outcome; q_open : outcome; q_rd : rdoutcome }.
-Record scase := { c_img : image; c_depth : nat; c_obs : list qobs }.
+Record qobs := mkQ { q_view : nat; q_name : list seg; q_stat : outcome; q_open : outcome; q_rd : rdoutcome }.
+Record scase := mkC { c_img : image; c_depth : nat; c_kept : list (list seg); c_obs : list qobs }.
 
-Definition q_model_ok (img : image) (d : nat) (q : qobs) : bool :=
-  outcome_eqb (m_stat img (q_view q) (q_name q) d) (q_stat q) &&
-  outcome_eqb (m_open img (q_view q) (q_name q) d) (q_open q) &&
-  rd_eqb (m_readdir img (q_view q) (q_name q) d) (q_rd q).
+Definition q_model_ok (t : table) (d : nat) (q : qobs) : bool :=
+  outcome_eqb (t_stat t (q_name q) d) (q_stat q) &&
+  outcome_eqb (t_open t (q_name q) d) (q_open q) &&
+  rd_eqb (t_readdir t (q_name q) d) (q_rd q).
 
-Definition case_model_ok (c : scase) : bool :=
-  wf_image (c_img c) && forallb (q_model_ok (c_img c) (c_depth c)) (c_obs c).
+(* tabs = one table per chain layer; every observation is checked against the table of its view *)
+Definition per_view {T} (tabs : list T) (ok : nat -> T -> qobs -> bool) (c : scase) : bool :=
+  forallb (fun vt => forallb (fun q => negb (Nat.eqb (q_view q) (fst vt)) || ok (fst vt) (snd vt) q) (c_obs c))
+          (combine (seq 0 (length tabs)) tabs) &&
+  forallb (fun q => Nat.ltb (q_view q) (length tabs)) (c_obs c).
 
-Definition q_spec_ok (img : image) (d : nat) (q : qobs) : bool :=
-  let x := s_expect img (q_view q) (q_name q) d in
-  stat_meets x (q_stat q) && open_meets x (q_open q) && rd_meets x (q_rd q).
+(* raw = raw_tables (c_img c), passed in so that it is computed once per image *)
+Definition case_obs_ok_with (raw : list table) (c : scase) : bool :=
+  let n := i_layers (c_img c) in
+  kept_ok (nth (pred n) raw []) (c_depth c) (c_kept c) &&
+  per_view raw (fun v t => q_model_ok (prune (Nat.eqb (S v) n) (c_kept c) t) (c_depth c)) c.
 
+Definition case_obs_ok (c : scase) : bool := case_obs_ok_with (raw_tables (c_img c)) c.
+
+Definition case_model_ok (c : scase) : bool := wf_image (c_img c) && case_obs_ok c.
+
+Definition q_spec_ok (strict : bool) (t : stable) (d : nat) (q : qobs) : bool :=
+  let x := s_expect t (q_name q) d in
+  stat_meets strict x (q_stat q) && open_meets strict x (q_open q) && rd_meets strict x (q_rd q).
+
+Definition s_tables (img : image) : list stable := map (s_table img) (seq 0 (i_layers img)).
+
+Definition case_spec_with (strict : bool) (st : list stable) (c : scase) : bool :=
+  per_view st (fun _ t => q_spec_ok strict t (c_depth c)) c.
+
+(* the property as written, on everything *)
+Definition case_spec_strict_ok (c : scase) : bool := case_spec_with true (s_tables (c_img c)) c.
+
+(* the property on the domain D: canonical absolute targets, boundary hop excluded *)
 Definition case_spec_ok (c : scase) : bool :=
-  negb (abs_canonical (c_img c)) || forallb (q_spec_ok (c_img c) (c_depth c)) (c_obs c).
+  negb (abs_canonical (c_img c)) || case_spec_with false (s_tables (c_img c)) c.
 
 (* number of observations that fall on the boundary excluded from the oracle (known finding) *)
-Definition case_boundary_count (c : scase) : nat :=
-  length (filter (fun q => match s_expect (c_img c) (q_view q) (q_name q) (c_depth c) with XBoundary => true | _ => false end) (c_obs c)).
+Definition case_boundary_count_with (st : list stable) (c : scase) : nat :=
+  fold_right (fun vt a =>
+    length (filter (fun q => Nat.eqb (q_view q) (fst vt) &&
+                             match s_expect (snd vt) (q_name q) (c_depth c) with XBoundary => true | _ => false end)
+                   (c_obs c)) + a) 0 (combine (seq 0 (length st)) st).
+Definition case_boundary_count (c : scase) : nat := case_boundary_count_with (s_tables (c_img c)) c.
 
 Fixpoint bad_indices {A} (f : A -> bool) (l : list A) (i : nat) : list nat :=
   match l with
@@ -448,13 +549,13 @@ Definition rel_target (from to : list seg) : list seg :=
    0 file, 1 dir, 2 missing, 3 deleted by layer 1, 4+j relative link to entry j, 9+j absolute link *)
 Definition entry_of_digit (name : list seg) (k : nat) : list entry :=
   match k with
-  | 0 => [{| e_name := name; e_kind := KFile; e_layer := 0; e_del := None |}]
-  | 1 => [{| e_name := name; e_kind := KDir; e_layer := 0; e_del := None |}]
+  | 0 => [mkE name KFile 0 None]
+  | 1 => [mkE name KDir 0 None]
   | 2 => []
-  | 3 => [{| e_name := name; e_kind := KFile; e_layer := 0; e_del := Some 1 |}]
+  | 3 => [mkE name KFile 0 (Some 1)]
   | _ => if Nat.ltb k 9
-         then [{| e_name := name; e_kind := KLink false (rel_target name (nth (k - 4) universe [])); e_layer := 0; e_del := None |}]
-         else [{| e_name := name; e_kind := KLink true (nth (k - 9) universe []); e_layer := 0; e_del := None |}]
+         then [mkE name (KLink false (rel_target name (nth (k - 4) universe []))) 0 None]
+         else [mkE name (KLink true (nth (k - 9) universe [])) 0 None]
   end.
 
 Fixpoint decode_entries (names : list (list seg)) (idx : N) : list entry :=
@@ -463,39 +564,72 @@ Fixpoint decode_entries (names : list (list seg)) (idx : N) : list entry :=
   | nm :: r => entry_of_digit nm (N.to_nat (N.modulo idx 14)) ++ decode_entries r (N.div idx 14)
   end.
 
-Definition decode_graph (idx : N) : image :=
-  {| i_entries := decode_entries universe idx; i_layers := 2; i_marker := std_marker |}.
+Definition decode_graph (idx : N) : image := mkI (decode_entries universe idx) 2 std_marker.
 
 (* observation digits (hex, least significant first), index ((d*2+v)*5+j)*3+op :
-   0..4 ok(entry j), 5 not-exist, 6 cycle, 7 depth, 8.. other; for ReadDir 0 = ok, empty listing *)
-Definition hexdigit (obs : N) (k : nat) : nat :=
-  N.to_nat (N.land (N.shiftr obs (4 * N.of_nat k)) 15).
-
+   0..4 ok(entry j), 5 not-exist, 6 cycle, 7 depth, 8 other, 9..13 Open handle of the whiteout node of
+   entry j-9; for ReadDir 0 = ok, empty listing *)
 Definition outcome_of_digit (k : nat) : outcome :=
   match k with
   | 5 => OErr CNotExist | 6 => OErr CCycle | 7 => OErr CDepth
-  | _ => if Nat.ltb k 5 then OOk (base (nth k universe [])) false else OErr COther
+  | _ => if Nat.ltb k 5 then OOk (base (nth k universe [])) false
+         else if Nat.leb 9 k && Nat.ltb k 14 then OOk (base (nth (k - 9) universe [])) true
+         else OErr COther
   end.
 Definition rd_of_digit (k : nat) : rdoutcome :=
   match k with
   | 0 => RDOk [] | 5 => RDErr CNotExist | 6 => RDErr CCycle | 7 => RDErr CDepth | _ => RDErr COther
   end.
 
-Record xcase := { x_idx : N; x_obs : N }.
+(* x_obs: one block of 30 digits per max depth 0..6 *)
+Record xcase := mkX { x_idx : N; x_obs : list (list nat) }.
 
-Definition x_expand (x : xcase) : list scase :=
+(* consume the digit stream: per view, per entry three digits *)
+Fixpoint take_obs (v : nat) (names : list (list seg)) (ds : list nat) : list qobs * list nat :=
+  match names with
+  | [] => ([], ds)
+  | nm :: r =>
+      match ds with
+      | a :: b :: c :: ds' =>
+          let (qs, rest) := take_obs v r ds' in
+          (mkQ v nm (outcome_of_digit a) (outcome_of_digit b) (rd_of_digit c) :: qs, rest)
+      | _ => ([], [])
+      end
+  end.
+
+Fixpoint x_cases (img : image) (d : nat) (blocks : list (list nat)) : list scase :=
+  match blocks with
+  | [] => []
+  | ds :: r =>
+      let (q0, ds0) := take_obs 0 universe ds in
+      let (q1, _) := take_obs 1 universe ds0 in
+      let kept := flat_map (fun q => match q_open q with
+                                     | OOk nm true => if seg_eqb nm (base (q_name q)) then [q_name q] else []
+                                     | _ => []
+                                     end) q1 in
+      mkC img d kept (q0 ++ q1) :: x_cases img (S d) r
+  end.
+
+Definition x_expand (x : xcase) : list scase := x_cases (decode_graph (x_idx x)) 0 (x_obs x).
+
+Definition xcase_model_ok (x : xcase) : bool :=
   let img := decode_graph (x_idx x) in
-  map (fun d =>
-    {| c_img := img; c_depth := d;
-       c_obs := flat_map (fun v => map (fun j =>
-                  let k := ((d * 2 + v) * 5 + j) * 3 in
-                  {| q_view := v; q_name := nth j universe [];
-                     q_stat := outcome_of_digit (hexdigit (x_obs x) k);
-                     q_open := outcome_of_digit (hexdigit (x_obs x) (k + 1));
-                     q_rd := rd_of_digit (hexdigit (x_obs x) (k + 2)) |}) (seq 0 5)) (seq 0 2) |})
-    (seq 0 7).
+  let raw := raw_tables img in
+  let cs := x_expand x in
+  wf_image img && Nat.eqb (length cs) 7 &&
+  forallb (fun c => Nat.eqb (length (c_obs c)) 10 && case_obs_ok_with raw c) cs.
 
-Definition xcase_model_ok (x : xcase) : bool := forallb case_model_ok (x_expand x).
-Definition xcase_spec_ok (x : xcase) : bool := forallb case_spec_ok (x_expand x).
+Definition xcase_spec_ok (x : xcase) : bool :=
+  let img := decode_graph (x_idx x) in
+  let st := s_tables img in
+  forallb (case_spec_with false st) (x_expand x).
+
 Definition xcase_boundary_count (x : xcase) : nat :=
-  fold_right (fun c a => case_boundary_count c + a) 0 (x_expand x).
+  let st := s_tables (decode_graph (x_idx x)) in
+  fold_right (fun c a => case_boundary_count_with st c + a) 0 (x_expand x).
+
+(* digit names for the generated files *)
+Definition h0 := 0. Definition h1 := 1. Definition h2 := 2. Definition h3 := 3. Definition h4 := 4.
+Definition h5 := 5. Definition h6 := 6. Definition h7 := 7. Definition h8 := 8. Definition h9 := 9.
+Definition ha := 10. Definition hb := 11. Definition hc := 12. Definition hd := 13. Definition he := 14.
+Definition hf := 15.
